@@ -145,6 +145,25 @@ fn run(name: &str, j: &J) -> Result<bool, String> {
             let ok = cond.map(|e| { let t = e.to_string(); t.contains("_LEFT_._PRIVACY_UNIT_ = _RIGHT_._PRIVACY_UNIT_") || t.contains("_RIGHT_._PRIVACY_UNIT_ = _LEFT_._PRIVACY_UNIT_") }).unwrap_or(false);
             Ok(ok)
         }
+        // C14: a projection f(x) of a unique column x keeps the Unique constraint only if f is injective
+        "c14_unique_through_function" => {
+            use qrlew::relation::{Constraint, Map};
+            let (a, b) = (f(j, "a"), f(j, "b"));
+            let schema: Schema = vec![("x", DataType::float_interval(-1000., 1000.), Some(Constraint::Unique))].into_iter().collect();
+            let table: Relation = Relation::table().name("t").schema(schema).size(100).build();
+            let e = match j["fun"].as_str().unwrap() {
+                "cast_as_integer" => Expr::cast_as_integer(Expr::col("x")),
+                "opposite" => Expr::opposite(Expr::col("x")),
+                "cast_as_text" => Expr::cast_as_text(Expr::col("x")),
+                other => return Err(format!("fun {}", other)),
+            };
+            let map: Map = Relation::map().name("m").with(("y", e.clone())).input(table).build();
+            let claims_unique = matches!(map.schema()[0].constraint(), Some(Constraint::Unique) | Some(Constraint::PrimaryKey));
+            let va = e.value(&Value::structured([("x", Value::float(a))])).map_err(|e| e.to_string())?;
+            let vb = e.value(&Value::structured([("x", Value::float(b))])).map_err(|e| e.to_string())?;
+            println!("  schema of SELECT {} AS y: constraint {:?}; f({}) = {}, f({}) = {}", e, map.schema()[0].constraint(), a, va, b, vb);
+            Ok(!(claims_unique && a != b && va == vb))
+        }
         _ => Err(format!("unknown replay `{}`", name)),
     }
 }
